@@ -126,6 +126,9 @@ type c10Case struct {
 	Trailing string `json:"trailing"`
 	Peer     string `json:"peer"`           // silent | closes | not-reading
 	Lead     int    `json:"lead,omitempty"` // well-formed requests in the same segment, in front of the offending frame
+	// Blocked: the last request before the offence has been answered with more than the connection window holds, so
+	// its response is half sent when the error is raised; with Trailing "grant" the peer opens the window afterwards
+	Blocked bool `json:"response_flow_blocked,omitempty"`
 }
 
 type c10Run struct {
@@ -157,7 +160,14 @@ func c10Exec(cs c10Case) (*fw.Violation, *harness.Server) {
 			off = &c10Offences[i]
 		}
 	}
-	h := harness.NewServer(harness.ServerOpts{MaxConcurrentStreams: 8})
+	so := harness.ServerOpts{MaxConcurrentStreams: 8}
+	if cs.Blocked {
+		so.PeerSettings = []peer.Setting{{ID: peer.SInitialWindowSize, Val: 1 << 20}} // only the connection window binds
+	}
+	if cs.Trailing == "request-timeout" {
+		so.ReadTimeout = 1000000000
+	}
+	h := harness.NewServer(so)
 	x := &c10Run{h: h, next: 1}
 	mk := func(rule, shape, detail string) *fw.Violation {
 		ev := h.EventLog
@@ -170,7 +180,9 @@ func c10Exec(cs c10Case) (*fw.Violation, *harness.Server) {
 		id := x.newID()
 		x.opened = append(x.opened, id)
 		h.SendFrames(peer.Headers(id, reqBlock(id, "GET"), peer.HeadersOpt{EndStream: true, EndHeaders: true, Pad: -1}))
-		if !cs.Running {
+		if cs.Blocked && i == cs.Before-1 {
+			h.Finish(len(h.Calls)-1, harness.Resp{Status: 200, Body: []byte(valOfLen(70000))})
+		} else if !cs.Running {
 			h.Finish(len(h.Calls)-1, harness.Resp{Status: 200, Body: []byte("ok")})
 			x.closedID = id
 		} else {
@@ -256,6 +268,12 @@ func c10Exec(cs c10Case) (*fw.Violation, *harness.Server) {
 			}
 		case "half-frame":
 			h.Send(peer.RawHeader(100, peer.TData, 0, x.anyStream()))
+		case "request-timeout":
+			// the server itself gives up the requests it promised to finish (ReadTimeout), the peer stays silent
+			h.FireTimer()
+		case "grant":
+			// the peer opens the connection window: what was promised can now be finished
+			h.SendFrames(peer.WindowUpdate(0, 100000))
 		case "rst-running":
 			// the peer gives up the requests whose handlers are still running (it has not seen the GOAWAY yet,
 			// or does not care), then stays connected and silent
@@ -294,7 +312,11 @@ func c10Exec(cs c10Case) (*fw.Violation, *harness.Server) {
 		return mk("dispatch-after-connection-error", shape+" trailing="+cs.Trailing, fmt.Sprintf("%d requests were dispatched after the connection error", len(h.Calls)-afterOffence)), h
 	}
 	_ = callsBefore
-	// (d) the connection handler returns
+	// (d) the connection handler returns -- once what was promised has finished: a response that is waiting for
+	// a connection window the peer never opens has not finished, and the property asks for nothing then
+	if cs.Blocked && cs.Trailing != "grant" && cs.Peer == "silent" {
+		return nil, h
+	}
 	if !h.Returned {
 		if os.Getenv("C10_DEBUG") != "" {
 			buf := make([]byte, 1<<20)
@@ -391,9 +413,9 @@ func runC10(c *fw.Ctx) {
 	thorough := c.Tier == "thorough"
 	var item int64
 	sampled := 0
-	trailings := []string{"none", "request", "pings", "half-frame", "rst-running", "data-same-segment", "requests-same-segment", "window-updates-same-segment", "settings-same-segment"}
+	trailings := []string{"none", "request", "pings", "half-frame", "rst-running", "request-timeout", "data-same-segment", "requests-same-segment", "window-updates-same-segment", "settings-same-segment"}
 	if thorough {
-		trailings = []string{"none", "request", "pings", "request+pings", "data-flood", "half-frame", "rst-running", "data-same-segment", "requests-same-segment", "window-updates-same-segment", "settings-same-segment"}
+		trailings = []string{"none", "request", "pings", "request+pings", "data-flood", "half-frame", "rst-running", "request-timeout", "data-same-segment", "requests-same-segment", "window-updates-same-segment", "settings-same-segment"}
 	}
 	for _, off := range c10Offences {
 		for before := 0; before <= 2; before++ {
@@ -434,7 +456,36 @@ func runC10(c *fw.Ctx) {
 			}
 		}
 	}
-	c.Family("offences")
+	// a promised response is half sent (connection window used up) when the error is raised
+	for _, off := range c10Offences {
+		if off.Name == "connection-window-overflow" {
+			continue // with the connection window at 0 an increment of 2^31-1 is legal
+		}
+		for before := 1; before <= 2; before++ {
+			for _, tr := range []string{"none", "grant", "request"} {
+				for _, pr := range []string{"silent", "closes"} {
+					if item++; !c.Mine(item) {
+						continue
+					}
+					cs := c10Case{Offence: off.Name, Before: before, Running: before == 2, Trailing: tr, Peer: pr, Blocked: true}
+					v, h := c10Exec(cs)
+					js, _ := json.Marshal(cs)
+					c.Eval(nt(true, js))
+					c.AddTransitions(int64(h.Events))
+					c.AddTraces(1)
+					c.State(fw.Hash(h.Digest()))
+					if v != nil {
+						c.Violate(*v)
+						c.Outcome(v.Rule)
+					} else {
+						c.Outcome("truthful-and-returns")
+					}
+					h.Close()
+				}
+			}
+		}
+	}
+	c.Family("offences-with-a-flow-blocked-response")
 	for p := 0; p <= 7; p++ {
 		if item++; !c.Mine(item) {
 			continue
